@@ -34,6 +34,9 @@ func init() {
 			Old: "\tkey, err := b.innerKey(key, false)\n\tif err != nil {\n\t\treturn err\n\t}\n\treturn b.tx.tr.Put(key, value, nil)", New: "\tik, err := b.innerKey(key, false)\n\tif err != nil {\n\t\treturn err\n\t}\n\terr = b.tx.tr.Put(ik, value, nil)\n\treturn err"},
 		{Name: "Clear without the debug logging", Kill: false, File: fLDB,
 			Old: "\tlogging.VPrint(logging.DEBUG, \"clear bucket item\",\n\t\tlogging.LogFormat{\n\t\t\t\"key\":    string(iter.Key()),\n\t\t\t\"bucket\": b.path,\n\t\t\t\"num\":    batch.Len(),\n\t\t})\n", New: ""},
+		{Name: "write transaction looks top-level buckets up in the committed state (seed C19-r2c)", Kill: true, Rule: "C19-TX", File: "poc/wallet/db/ldb/leveldb.go",
+			Old: "\treturn &LDBTransaction{\n\t\ttr: tr,\n\t}, nil\n}\n\n// LDBTransaction ...\ntype LDBTransaction struct {\n\ttr *leveldb.Transaction\n}\n\n// TopLevelBucket ...\nfunc (tx *LDBTransaction) TopLevelBucket(name string) db.Bucket {\n\tbucketPath := joinBucketPath(topLevelBucketDepth, name)\n\n\tkey := []byte(joinBucketPath(bucketNameBucket, bucketPath))\n\t_, err := tx.tr.Get(key, nil) // value == name\n",
+			New: "\treturn &LDBTransaction{\n\t\tldb: l.LDb,\n\t\ttr:  tr,\n\t}, nil\n}\n\n// LDBTransaction ...\ntype LDBTransaction struct {\n\tldb *leveldb.DB\n\ttr  *leveldb.Transaction\n}\n\n// TopLevelBucket ...\nfunc (tx *LDBTransaction) TopLevelBucket(name string) db.Bucket {\n\tbucketPath := joinBucketPath(topLevelBucketDepth, name)\n\n\tkey := []byte(joinBucketPath(bucketNameBucket, bucketPath))\n\t_, err := tx.ldb.Get(key, nil) // value == name\n"},
 	}
 }
 
